@@ -191,6 +191,9 @@ def cmdDecode (path : String) (os : Nat) (verbose : Bool) : IO Unit := do
     let a := accounting d
     IO.println s!"accounting ok={a.ok} leaked={a.leaked} doubleRef={a.doubleRef} freeAndUsed={a.freeAndUsed} doubleFree={a.doubleFree} freeOutOfRange={a.freeOutOfRange}"
     IO.println ("errors " ++ (if d.errors.isEmpty then "-" else " | ".intercalate d.errors))
-    IO.println s!"metas m0={metaValid f 16} m1={metaValid f (d.pageSize + 16)}"
+    -- a meta page is valid when its meta struct validates AND its page header says so: page id =
+    -- slot, type flag = meta (a v2 reader such as `bbolt page`/`surgery` goes by the header)
+    let hdrOk := fun (slot : Nat) => f.u64 (slot * d.pageSize) == slot && f.u16 (slot * d.pageSize + 8) == V2.metaPageFlag
+    IO.println s!"metas m0={metaValid f 16 && hdrOk 0} m1={metaValid f (d.pageSize + 16) && hdrOk 1}"
 
 end Bolt.Driver
